@@ -2064,7 +2064,10 @@ class unyt_array(np.ndarray):
                     if not u0.is_dimensionless:
                         if u0.dimensions == u1.dimensions:
                             out_arr = np.multiply(
-                                out_arr.view(np.ndarray), unit.base_value, out=out_func
+                                out_arr.view(np.ndarray),
+                                unit.base_value,
+                                out=out_func,
+                                where=kwargs.get("where", True),
                             )
                             unit = Unit(registry=unit.registry)
         else:
@@ -2111,7 +2114,11 @@ class unyt_array(np.ndarray):
                 else:
                     # scale the raw buffer: out still carries the units it
                     # had before the call, which may not allow multiplication
-                    np.multiply(out_func, mul, out=out_func)
+                    # with where=, the elements that were not selected keep
+                    # the value they had
+                    np.multiply(
+                        out_func, mul, out=out_func, where=kwargs.get("where", True)
+                    )
                 if np.shares_memory(out_arr, out):
                     mul = 1
             if isinstance(out, unyt_array):
